@@ -3,6 +3,8 @@ use crate::conv::{self, Entry, Sett};
 use crate::runner::{self, Prop};
 use std::io::{BufRead, Write};
 
+pub mod c03;
+pub mod c05;
 pub mod c06;
 pub mod c10;
 pub mod c11;
@@ -12,6 +14,8 @@ pub mod c18;
 
 pub fn by_id(id: &str) -> Option<Box<dyn Prop>> {
     match id {
+        "C03" => Some(Box::new(c03::C03)),
+        "C05" => Some(Box::new(c05::C05)),
         "C06" => Some(Box::new(c06::C06)),
         "C10" => Some(Box::new(c10::C10)),
         "C11" => Some(Box::new(c11::C11)),
